@@ -337,6 +337,68 @@ func (x *c14Run) checkListViews(l at.List, r *rng.R) {
 	var rl []any
 	l.Reduce(0, func(acc any, v any) any { rl = append(rl, v); return acc })
 	x.sameSeq("Reduce", rl, all, nil)
+	if x.bad {
+		return
+	}
+	// re-entrancy: a callback may itself use read-only views of the same list; neither the inner nor the outer
+	// result may be disturbed (run twice so that anything kept from the first call is in play)
+	for round := 0; round < 2 && !x.bad; round++ {
+		innerOK := true
+		outer := l.Map(func(i int, v any) any {
+			switch (i + round) % 4 {
+			case 0:
+				if !sameAnySeq(listToSlice(l.MapValues(tag)), all, tag) {
+					innerOK = false
+				}
+			case 1:
+				if !sameAnySeq(listToSlice(l.MapInts(func(y int) any { return tag(y) })), ints, tag) {
+					innerOK = false
+				}
+			case 2:
+				if !sameAnySeq(listToSlice(l.Filter(func(any) bool { return true })), all, nil) {
+					innerOK = false
+				}
+			default:
+				var seen []any
+				l.ForEachValue(func(w any) { seen = append(seen, w) })
+				if !sameAnySeq(seen, all, nil) {
+					innerOK = false
+				}
+			}
+			return tag(v)
+		})
+		x.sameSeq("Map-with-reentrant-views-result", listToSlice(outer), all, tag)
+		if !innerOK {
+			x.fail("reentrant-inner-view", "a view called from inside a Map callback of the same list sees every element once, in order", "the inner result differs")
+		}
+		innerOK = true
+		outerInts := l.MapInts(func(y int) any {
+			if !sameAnySeq(listToSlice(l.MapInts(func(z int) any { return y * z })), ints, func(v any) any { return y * v.(int) }) {
+				innerOK = false
+			}
+			return tag(y)
+		})
+		x.sameSeq("MapInts-nested-in-MapInts-result", listToSlice(outerInts), ints, tag)
+		if !innerOK {
+			x.fail("reentrant-inner-view", "MapInts called from inside a MapInts callback of the same list returns the inner products", "the inner result differs")
+		}
+	}
+}
+
+func sameAnySeq(got []any, want []obs, conv func(any) any) bool {
+	if len(got) != len(want) {
+		return false
+	}
+	for i := range got {
+		w := want[i].v
+		if conv != nil {
+			w = conv(w)
+		}
+		if !eqSlot(got[i], w) {
+			return false
+		}
+	}
+	return true
 }
 
 // sortObs orders observations by key (objects are compared as sets).
